@@ -467,7 +467,7 @@ func evalStack(sstack []any) []any {
 		case group.code:
 			sstack[i] = left
 		case eq.code:
-			if left == right {
+			if same(left, right) {
 				sstack[i] = true
 			} else {
 				sstack[i] = false
@@ -482,7 +482,7 @@ func evalStack(sstack []any) []any {
 				}
 			}
 		case neq.code:
-			if left == right {
+			if same(left, right) {
 				sstack[i] = false
 			} else {
 				sstack[i] = true
@@ -492,8 +492,9 @@ func evalStack(sstack []any) []any {
 						sstack[i] = ok && float64(tl) != tr
 					}
 				case float64:
-					tr, ok := right.(int64)
-					sstack[i] = ok && tl != float64(tr)
+					if tr, ok := right.(int64); ok {
+						sstack[i] = tl != float64(tr)
+					}
 				}
 			}
 		case lt.code:
@@ -682,7 +683,7 @@ func evalStack(sstack []any) []any {
 			sstack[i] = false
 			if list, ok := right.([]any); ok {
 				for _, ev := range list {
-					if left == ev {
+					if same(left, ev) {
 						sstack[i] = true
 						break
 					}
@@ -770,6 +771,15 @@ func evalStack(sstack []any) []any {
 		}
 	}
 	return sstack
+}
+
+// same returns true if left and right are equal. Values that can not be
+// compared such as slices and maps are never equal.
+func same(left, right any) bool {
+	if lt := reflect.TypeOf(left); lt != nil && !lt.Comparable() {
+		return false
+	}
+	return left == right
 }
 
 // Inspect the script.
